@@ -123,6 +123,7 @@ func runSeq(prop string) *ShardResult {
 		}
 		sc.Alpha = func(m *core.Model) []core.Op {
 			ops := appendOps(m, [][]int{{4}, {12, 4}})
+			ops = append(ops, badAppends(m)...)
 			ops = append(ops, delShapes(m)...)
 			ops = append(ops, core.Op{K: "S", Key: "k1", Val: []byte("a")}, core.Op{K: "U", Key: "k2", U64: 9})
 			return append(ops, core.Op{K: "R"})
@@ -171,11 +172,24 @@ func runSeq(prop string) *ShardResult {
 func seqThenCrash(prop string) *ShardResult {
 	total := *fBudget
 	*fBudget = total * 2 / 5
+	if prop == "C13" {
+		*fBudget = total / 3
+	}
 	res := newResult()
 	res.merge(runSeq(prop), "seq_")
 	res.merge(runCrash(prop), "crash_")
 	*fBudget = total / 5
+	if prop == "C13" {
+		*fBudget = total / 6
+	}
 	res.merge(runSched(prop), "sched_")
+	if prop == "C13" {
+		// failing I/O: an ID handed to a file whose creation (or the commit after it) failed is not handed out again
+		res.merge(runFault(prop), "fault_")
+	}
 	*fBudget = total
+	if prop == "C08" && *fShard == 0 {
+		heldValueCases(res)
+	}
 	return res
 }
